@@ -397,6 +397,8 @@ def l64(maxfrag):
     """a fragment that timed out is queued again: what is re-sent must be the same fragment
     message (6-byte (id,index,count) prefix included), or the receiver would reassemble garbage"""
     tx = mk_conn(mtu_sym=False)
+    # the connection has any history: the message counter stands anywhere on the ring, also right before the 65535 -> 1 wrap
+    tx.seq_message = conn.SeqNum(symint('msg_seq_before', 1, 65535))
     payload, L = rope.blob('p', 0, None)
     assume(L > Packet.MAX_PAYLOAD_SIZE)
     assume(L <= Packet.MAX_PAYLOAD_SIZE + (maxfrag - 1) * Packet.MAX_FRAGMENT_SIZE)
@@ -422,6 +424,7 @@ def l64(maxfrag):
     again = tx.outgoing_messages[0]
     check(again.type == PacketType.APP_FRAGMENT, 're-queued as a fragment message')
     check(again.payload == orig.payload, 're-sent fragment == original fragment message (header included)')
+    check(again.seq == orig.seq, 're-sent fragment keeps the message sequence number it was first sent under (ring arithmetic, also across the wrap)')
 
 
 def replay_l64(cfg, m):
@@ -429,6 +432,7 @@ def replay_l64(cfg, m):
     c = real('mpgameserver.connection')
     tx = c.ConnectionBase(False, ('p', 1))
     tx.status = c.ConnectionStatus.CONNECTED
+    tx.seq_message = c.SeqNum(m.get('msg_seq_before', 1))
     mode = [c.RetryMode.BEST_EFFORT, c.RetryMode.RETRY_ON_TIMEOUT][[v for k, v in m.items() if k.startswith('retry')][0]]
     tx.send(os.urandom(m['p_len']), mode, None)
     frags = list(tx.outgoing_messages)
@@ -444,6 +448,8 @@ def replay_l64(cfg, m):
         if len(tx.outgoing_messages) != 1:
             return True, 'not re-queued'
         again = tx.outgoing_messages[0]
+        if int(again.seq) != int(frags[k].seq):
+            return True, 'fragment %d first sent as message seq %d, re-sent as %d (counter stood at %d before the send)' % (k, int(frags[k].seq), int(again.seq), m.get('msg_seq_before', 1))
         return again.payload != frags[k].payload, 'orig %d bytes, re-sent %d bytes%s' % (
             len(frags[k].payload), len(again.payload), ' (MTU changed to %d in flight)' % m.get('mtu_later', 1500) if m.get('mtu_changed_in_flight') else '')
     finally:
